@@ -136,6 +136,17 @@ def run(ctx):
                 root, steps = access_path(P, fi, ptr)
                 fl = fields_in_path(steps)
                 return tuple(fl) if fl and (strip_ptr_casts(fi, root) in A17 | {al.res} or root in A17) else None
+            # members bound through a table of {symbol, offsetof(member)} rows are written at computed offsets: which member a store
+            # hits is not visible here (R16h / R19d treat that form); the rule applies to members assigned by name
+            computed = False
+            for w_ in fi.insts():
+                dst_ = w_.ops[1] if w_.op == 'store' else (w_.ops[0] if w_.op == 'call' and (w_.callee or '').startswith('@llvm.memcpy') else None)
+                if dst_ is not None and dst_ in A17:
+                    gd_ = fi.defs.get(strip_ptr_casts(fi, dst_))
+                    if gd_ is not None and gd_.op == 'getelementptr' and gd_.gep_base_ty == 'i8' and not _INT17.match(gd_.ops[-1]):
+                        computed = True
+            if computed:
+                continue
             for c_ in [i for i in fi.insts() if i.op == 'call' and (i.callee or '').startswith('%')]:
                 ld = fi.defs.get(c_.callee)
                 if ld is None or ld.op != 'load' or ld.ops[0] not in A17:
